@@ -105,6 +105,8 @@ def run_case(args):
                 lines.append("(push 1)"); depth += 1
             elif c < 0.35 and depth:
                 lines.append("(pop 1)"); depth -= 1
+                if rng.random() < 0.4:
+                    lines.append("(get-proof)")          # no check-sat since the stack changed: there is no proof to print
             elif c < 0.75:
                 b = rng.choice(p.bools)
                 f = b if rng.random() < 0.5 else ("app", "not", "Bool", [b])
@@ -183,6 +185,11 @@ def run_case(args):
             snap[k] = (list(active), list(inputs), set(theory))
     k = -1
     for i, l in enumerate(lines):
+        if l == "(get-proof)" and i > 0 and lines[i - 1] != "(check-sat)":
+            o = outs[i]
+            if not (isinstance(o, list) and o and smtlib.sym(o[0]) == "error"):
+                res["problems"].append({"what": f"`(get-proof)` after `{lines[i - 1]}` prints a proof although the assertion stack changed since the last "
+                                                f"check-sat (a refutation of assertions that are no longer current)", "proof": str(o)[:400]})
         if l == "(check-sat)":
             k += 1
             if smtlib.sym(outs[i]) != "unsat" or i + 1 >= len(lines) or lines[i + 1] != "(get-proof)":
